@@ -1222,8 +1222,75 @@ fn k_platform(sc: &J, r: &R) {
 
 // update_mmap / update_mmap_rayon on a file that can be opened, seeked and read but (possibly) not mapped
 // must give what update_reader gives on a freshly opened handle
+// an unseekable source (named pipe) fed with `n` bytes by a writer thread: update_mmap / update_mmap_rayon must
+// fall back to ordinary reads and give the hash of those bytes
+#[cfg(feature = "mmap")]
+fn fifo_case(n: usize, rayon: bool) -> Result<(u64, blake3::Hash), String> {
+    let dir = std::env::temp_dir().join(format!("vf_fifo_{}_{}_{}", std::process::id(), n, rayon));
+    let _ = std::fs::remove_file(&dir);
+    let st = std::process::Command::new("mkfifo").arg(&dir).status().map_err(|e| e.to_string())?;
+    if !st.success() {
+        return Err("mkfifo failed".into());
+    }
+    let p2 = dir.clone();
+    let w = std::thread::spawn(move || {
+        let mut f = std::fs::OpenOptions::new().write(true).open(&p2).expect("driver: open fifo for writing");
+        let data: Vec<u8> = (0..n).map(|i| (i % 251) as u8).collect();
+        let _ = f.write_all(&data);
+    });
+    let mut h = Hasher::new();
+    let res = if rayon {
+        #[cfg(feature = "rayon")]
+        {
+            h.update_mmap_rayon(&dir).map(|_| ())
+        }
+        #[cfg(not(feature = "rayon"))]
+        {
+            h.update_mmap(&dir).map(|_| ())
+        }
+    } else {
+        h.update_mmap(&dir).map(|_| ())
+    };
+    // (the reader side was open while the call ran, so the writer is past its open(); once the call has dropped
+    // the file a blocked write fails with EPIPE and the thread ends)
+    let _ = w.join();
+    let _ = std::fs::remove_file(&dir);
+    match res {
+        Ok(()) => Ok((h.count(), h.finalize())),
+        Err(e) => Err(format!("error: {}", e)),
+    }
+}
+
 fn k_mmap_special(sc: &J, r: &R) {
     let path = sc.s("path");
+    #[cfg(feature = "mmap")]
+    if path.starts_with("fifo:") {
+        let n: usize = path[5..].parse().unwrap_or(0);
+        let data: Vec<u8> = (0..n).map(|i| (i % 251) as u8).collect();
+        let want = blake3::hash(&data);
+        let mut same = true;
+        let mut what = String::new();
+        for rayon in [false, true] {
+            match fifo_case(n, rayon) {
+                Ok((c, h)) => {
+                    if c != n as u64 || h != want {
+                        same = false;
+                        what = format!("named pipe with {} bytes: count {} hash {}", n, c, h.to_hex());
+                    }
+                }
+                Err(e) => {
+                    if e != "mkfifo failed" {
+                        same = false;
+                        what = format!("named pipe with {} bytes (rayon={}): {}", n, rayon, e);
+                    }
+                }
+            }
+        }
+        set(r, "skipped", "false".into());
+        set(r, "same", same.to_string());
+        set(r, "detail", esc(&what));
+        return;
+    }
     #[cfg(feature = "mmap")]
     {
         let meta = std::fs::metadata(path);
